@@ -261,8 +261,9 @@ def judge_outcome(c, verdict, rib_after, drops_discard):
         if d:
             return (f'C08:discard-changed-the-rest:{tag}', '; '.join(d)[:600])
         # the rest is kept: the routes reach Adj-RIB-In
-        want_rib = c02.expected_rib({}, exp2)  # announces stored first, then the withdrawn routes removed
-        missing = [k for k in want_rib if k not in rib_after]
+        # routes that the same UPDATE also withdraws are left aside here (their fate is C02's subject)
+        want_rib = c02.expected_rib({}, exp2)
+        missing = [k for k in want_rib if k not in rib_after and k not in c02.overlap_keys(exp2)]
         if missing:
             return (f'C08:discard-drops-whole-update:{tag}', f'announced on the API but not stored in Adj-RIB-In: {missing[:2]}')
         return None
